@@ -76,7 +76,7 @@ class _LegModel:
         self.ret = r[1] if r else None
 
     def _attr(self, fr, e):
-        if isinstance(e.value, ast.Name) and e.value.id in (self.p_xl, self.p_xu) and e.attr in ("dtype", "device", "shape"):
+        if isinstance(e.value, ast.Name) and e.value.id in (self.p_xl, self.p_xu) and e.attr in ("dtype", "device", "shape", "ndim"):
             return Opaque("%s.%s" % (e.value.id, e.attr))
         return None
 
@@ -121,6 +121,11 @@ class _LegModel:
                 return v
         if fn == "len":
             return Opaque("len")
+        if isinstance(c.func, ast.Attribute) and c.func.attr in ("reshape", "view", "contiguous", "to", "clone"):
+            # a reshape of the node / weight array keeps the order of its entries (row-major): layout only
+            base = fr.ev(c.func.value)
+            if self._whole(base) is not None and isinstance(base, Arr):
+                return base
         if isinstance(c.func, ast.Name) and c.func.id == self.p_fcn:
             if not c.args or isinstance(c.args[0], ast.Starred):
                 raise Uninterpretable("integrand call %s" % ast.unparse(c))
